@@ -88,7 +88,7 @@ def run_case(case):
     if sc.get_total_num_points() != len(seen):
         fails.append(fail("total_num_points", "get_total_num_points %r, distinct evaluated points %d" % (sc.get_total_num_points(), len(seen)), key))
     vol = float(np.prod(b - a))
-    if abs(float(res[0]) - vol) > 1e-12 * vol and boundary:
+    if not (abs(float(res[0]) - vol) <= 1e-12 * vol) and boundary:
         fails.append(fail("integral_of_one", "integral of 1 is %r, volume %r" % (res, vol), key))
     pts = sorted(cnt)
     N = len(pts)
